@@ -63,6 +63,19 @@ def c11_chunk(args):
             k = rng.randrange(0, U64 - b + 1)
             qs += ["D %d %d %d" % (b, a, f), "D %d %d %d" % (b + k, a + k, f)]
             meta += [("D", a, b, f), ("TRANS", a, b, k, f)]
+        elif kind == 8 and rng.random() < 0.5:
+            # the OS-timer arm of the same wrapper: Instants a and b nanoseconds after a fixed one; (b - a) * 1000 ps, 0 if b < a
+            a, b = rand_u64(rng), rand_u64(rng)
+            r = rng.random()
+            if r < 0.4:
+                # spans around 2^64 ps (18,446,744,073,709,551.6 ns) and other word boundaries of the picosecond value
+                span = rng.choice([2 ** 64 // 1000, 2 ** 63 // 1000, 2 ** 32 // 1000, 2 ** 53, 2 ** 54]) + rng.choice([-2, -1, 0, 1, 2, 1000, rng.randrange(10 ** 6)])
+                a = rng.choice([0, 1, 10 ** 9, rng.getrandbits(40)])
+                b = min(U64, a + max(span, 0))
+            elif r < 0.7 and a > b:
+                a, b = b, a
+            qs.append("O %d %d" % (b, a))
+            meta.append(("O", a, b))
         else:
             secs = rng.choice([0, 1, 59, 2 ** 32, U64, rng.getrandbits(rng.randrange(1, 65))])
             nanos = rng.choice([0, 1, 999, 999_999_999, rng.randrange(10 ** 9)])
@@ -79,11 +92,18 @@ def c11_chunk(args):
             meta.append(("F", secs, nanos))
     ans = ask(exe, qs)
     bad = []
-    stats = {"D": 0, "ADD": 0, "TRANS": 0, "F": 0, "b_lt_a": 0, "over_2_64_ps": 0}
+    stats = {"D": 0, "ADD": 0, "TRANS": 0, "F": 0, "O": 0, "b_lt_a": 0, "over_2_64_ps": 0, "os_spans_over_2_64_ps": 0}
     for i, m in enumerate(meta):
         stats[m[0]] += 1
         got = ans[i]
-        if m[0] == "D":
+        if m[0] == "O":
+            _, a, b = m
+            exp = (b - a) * 1000 if b >= a else 0
+            if exp > 2 ** 64:
+                stats["os_spans_over_2_64_ps"] += 1
+            if got != str(exp):
+                bad.append(("os_timer_conversion", "OS timer: Instants %d ns and %d ns after one fixed instant differ by %s ps, exact %d" % (a, b, got, exp), qs[i]))
+        elif m[0] == "D":
             _, a, b, f = m
             exp = models.tsc_duration(b, a, f)
             if b < a:
@@ -315,7 +335,7 @@ def check(prop, tier, seed, out):
                 out.violation("C11:" + code, msg, {"engine": "release", "bin": "puredrv", "query": q})
             if len(out.samples) < 3:
                 out.add_sample({"queries": sample})
-        n = sum(agg[k] for k in ("D", "F", "ADD", "TRANS"))
+        n = sum(agg.get(k, 0) for k in ("D", "F", "ADD", "TRANS", "O"))
         out.evaluations += n
         out.extra["observed"] = agg
         nclocks = c11_precision(exe, tier, seed, out)
